@@ -377,31 +377,12 @@ func (c *Check) activeEntryGuard(rule string) bool {
 	// (a) with conn == nil the initial transition built before the main loop
 	// never targets active (decided on the values, whatever the control shape)
 	active := p.MustConst("activeState")
-	a := NewAnalysis(p, run)
-	a.AtomHook = func(e *Expr) (ISet, bool) {
-		if e.Op == "nn" && isLoadOfField(e.Args[0], "conn") {
-			return isConst(0), true
+	first, known := p.firstRequestTargets(run, nnField("conn", false))
+	okA := known && len(first) > 0
+	for _, v := range first {
+		if v == active {
+			okA = false
 		}
-		return nil, false
-	}
-	a.Run()
-	okA := len(a.Undecided) == 0
-	sites := 0
-	for _, cl := range p.callsIn(run, descIs("newStateTransition")) {
-		in := cl.(ssa.Instruction)
-		if inLoop(in.Block()) {
-			continue
-		}
-		for _, st := range a.At[in] {
-			sites++
-			args := a.argExprs(st, nil, cl.Common())
-			if len(args) != 2 || st.rangeOf(args[1]).Contains(active) {
-				okA = false
-			}
-		}
-	}
-	if sites == 0 {
-		okA = false
 	}
 	c.require(okA && okB, rule, "fsm.active", "initial entry guarded by conn", p.Pos(act.Pos()),
 		"an FSM created with a connection enters active() only with conn != nil, and active() touches the connect-retry timer only on the conn == nil branch")
